@@ -943,20 +943,40 @@ theorem C12_lambda_dispatch (T : Table) (c : Cfg) (R : Req) (stop₀ : Bool) :
 /-! ## Extension round 2 (code inside the model): the `stop_training` setter, an exception escaping from a callback,
 `CallbackList` as a mutable sequence, the `Timer` -/
 
+/-- the entry is a handler invocation that, ENTERED WITH THE FLAG SET, makes an accepted assignment of `False`: Python
+CLEARS the flag there (and the loop goes on), whereas the model's `Asg.req` reads an assignment of `False` as "no request"
+and keeps the flag (`Asg` doc: "`v = False` is faithful only while the flag is clear") -/
+def clearsAt (A : Asg) : Entry → Bool
+  | .call i ev seen _ => seen && (match A i ev with | some (.pyBool false, _) => true | _ => false)
+  | _ => false
+
+/-- no accepted assignment of `False` occurs after a request in the log: the scope in which the model of assignments
+(`Asg.req`, `fitAsg`) speaks about the code.  Decidable (a `Bool`) for a concrete log. -/
+def noClear (A : Asg) (log : List Entry) : Bool := log.all (fun x => !clearsAt A x)
+
 /-- **C12.13** The `stop_training` setter (neural_state.py:46-50) and what an assignment by a callback amounts to.
 (1) a Python `bool` is accepted and stored; (2) every other kind — `numpy.bool_` (a numpy comparison result), `int` 0/1, a 0-d
 tensor, `None`, a `str` — is refused with an exception and leaves the whole state, in particular the flag, exactly as it was;
 (3) hence the stop requests of a run are exactly the accepted assignments of `True`: a refused assignment is NOT a request;
 (4) a handler ends with an exception iff it assigns a refused kind outside a `try`; (5) a run in which the callbacks only
 make refused assignments (caught) or assign `False` is, event for event and entry for entry, the run in which no callback
-requests anything — it is not cut short and the flag stays as it was. -/
-theorem C12_refused_request_leaves_flag (v : PyVal) (s : S) (A : Asg) (mid : Int → Nat → Bool) :
+requests anything — it is not cut short and the flag stays as it was — PROVIDED no accepted assignment of `False` is made by
+a handler entered with the flag set (`noClear`: the requests `mid` made inside a batch can set it): Python would CLEAR the flag
+there and go on, which the model (`Asg.req`: `False` = "no request") does not represent.  (1), (2) and the two iffs (3), (4)
+read back `setStop` / `Asg.req` / `Asg.raises` (that `numpy.bool_` is refused is what the harness checks against the code).
+
+PARTIAL: the full statement (no `noClear` premise in (5)), i.e.
+`(∀ i ev w c, A i ev = some (w, c) → w ≠ .pyBool true ∧ (w.isBool = false → c = true)) →`
+`  ∀ c stop₀, fitAsg c A mid stop₀ = .ok (fit c { cb := fun _ _ => false, mid := mid } stop₀)`
+is provable in the model but NOT a statement about the code when a `False` assignment follows a request of `mid`. -/
+theorem C12_refused_request_leaves_flag_partial (v : PyVal) (s : S) (A : Asg) (mid : Int → Nat → Bool) :
     (∀ b, assignStop (.pyBool b) s = (none, { s with stop := b })) ∧
     (v.isBool = false → assignStop v s = (some .ValueError, s)) ∧
     (∀ i ev, (A.req mid).cb i ev = true ↔ ∃ c, A i ev = some (.pyBool true, c)) ∧
     (∀ i ev, (A.raises i ev).isSome = true ↔ ∃ w, A i ev = some (w, false) ∧ w.isBool = false) ∧
     ((∀ i ev w c, A i ev = some (w, c) → w ≠ .pyBool true ∧ (w.isBool = false → c = true)) →
-      ∀ c stop₀, fitAsg c A mid stop₀ = .ok (fit c { cb := fun _ _ => false, mid := mid } stop₀)) := by
+      ∀ c stop₀, noClear A (fit c { cb := fun _ _ => false, mid := mid } stop₀).1 = true →
+        fitAsg c A mid stop₀ = .ok (fit c { cb := fun _ _ => false, mid := mid } stop₀)) := by
   refine ⟨fun b => rfl, ?_, ?_, ?_, ?_⟩
   · intro hv
     cases v <;> first | rfl | (simp [PyVal.isBool] at hv)
@@ -976,7 +996,7 @@ theorem C12_refused_request_leaves_flag (v : PyVal) (s : S) (A : Asg) (mid : Int
     | some p =>
       obtain ⟨w, c⟩ := p
       cases w <;> cases c <;> simp [setStop, PyVal.isBool]
-  · intro h c stop₀
+  · intro h c stop₀ _
     have hreq : A.req mid = { cb := fun _ _ => false, mid := mid } := by
       simp only [Asg.req, Req.mk.injEq, and_true]
       funext i ev
@@ -1011,6 +1031,28 @@ example :
      (match fitAsg c A (fun _ _ => false) false with
       | .ok r => some ((events r.1).length, r.2.stop) | .error _ => none) = some (10, false)) := by decide
 
+/-- the premise `noClear` of conjunct (5) holds on a non-trivial run: a request made INSIDE batch 0 of epoch 1 (`mid`), callback 0
+assigns `False` at the start of epoch 1 (flag still clear: a no-op in Python too) and a refused `np.True_` (caught) at the end of
+that batch — the conclusion then is the run cut short by `mid`'s request (the batch loop is left, epoch-end and train-end follow); … -/
+example :
+    (let c : Cfg := { start := 1, epochs := 2, numBatches := 2, cbs := [0], timer := false, hasSched := false }
+     let mid : Int → Nat → Bool := fun e b => e == 1 && b == 0
+     let A : Asg := fun i ev =>
+       if i == 0 && ev == Event.epochStart 1 then some (.pyBool false, false)
+       else if i == 0 && ev == Event.batchEnd 1 0 then some (.npBool true, true) else none
+     noClear A (fit c { cb := fun _ _ => false, mid := mid } false).1 = true ∧
+     (match fitAsg c A mid false with
+      | .ok r => some (events r.1, r.2.stop) | .error _ => none)
+       = some ([.trainStart, .epochStart 1, .batchStart 1 0, .batchEnd 1 0, .epochEnd 1, .trainEnd], true)) := by decide
+
+/-- … and FAILS on the run the audit pointed at: the same request of `mid`, and callback 0 assigns `False` at the end of that
+batch (Python clears the flag and trains on; the model would stop) — that run is outside the statement. -/
+example :
+    (let c : Cfg := { start := 1, epochs := 2, numBatches := 2, cbs := [0], timer := false, hasSched := false }
+     let mid : Int → Nat → Bool := fun e b => e == 1 && b == 0
+     let A : Asg := fun i ev => if i == 0 && ev == Event.batchEnd 1 0 then some (.pyBool false, false) else none
+     noClear A (fit c { cb := fun _ _ => false, mid := mid } false).1 = false) := by decide
+
 /-- **C12.14** An exception raised by a callback inside `fit` (here: a refused assignment to `stop_training` outside a `try`).
 Neither `CallbackList` nor `fit` catches anything, so what has happened when the exception leaves `fit` is a PREFIX of the run
 that would have happened: the log up to and including the first raising handler invocation — the later callbacks and the
@@ -1020,8 +1062,11 @@ sequence (`C12_dispatch_order`) of the full run; the control skeleton so far is 
 parameter update made sits immediately after its batch-start emission (updates only inside batch windows) and the version
 left behind is the number of updates made; the flag left behind is the initial flag or-ed with the requests made before
 (so a later call is silent iff a stop had been requested, `C12_stopped_run_is_noop`). A run started stopped never raises.
-The last event emitted is the one whose dispatch was interrupted (every invocation is for the event emitted last). -/
-theorem C12_exception_trace (c : Cfg) (A : Asg) (mid : Int → Nat → Bool) (stop₀ : Bool) (ab : Abort)
+The last event emitted is the one whose dispatch was interrupted (every invocation is for the event emitted last).
+
+This is the MODEL-level fact (`fitAsg` is DEFINED as the completed model run cut after the first raising invocation, so the
+prefix clauses are `cutAtRaise_some`); as a statement about the code it is `C12_exception_trace_partial`. -/
+theorem exception_trace_model (c : Cfg) (A : Asg) (mid : Int → Nat → Bool) (stop₀ : Bool) (ab : Abort)
     (h : fitAsg c A mid stop₀ = .error ab) :
     ∃ pre' i ev seen ver post,
       ab.log = pre' ++ [Entry.call i ev seen ver] ∧
@@ -1073,6 +1118,41 @@ theorem C12_exception_trace (c : Cfg) (A : Asg) (mid : Int → Nat → Bool) (st
       rw [hlog, e1, events_append]
       simpa using hcur
 
+/-- **C12.14 (PARTIAL)** `exception_trace_model` as a statement about the code, within the scope in which the model of assignments is
+faithful: no handler invocation of the aborted run that was entered with the flag set makes an accepted assignment of `False`
+(`_hnc`; Python would clear the flag there and the run would continue differently, so neither `ab.stop = stop₀ || (requests so
+far)` nor "`ab.log` is a prefix of the model's full run" would describe it).  The hypothesis is a SCOPE condition: the proof does
+not use it (in the model an assignment of `False` is "no request").  The full statement (without `_hnc`) is
+`exception_trace_model`; it is a fact about the model only. -/
+theorem C12_exception_trace_partial (c : Cfg) (A : Asg) (mid : Int → Nat → Bool) (stop₀ : Bool) (ab : Abort)
+    (h : fitAsg c A mid stop₀ = .error ab) (_hnc : noClear A ab.log = true) :
+    ∃ pre' i ev seen ver post,
+      ab.log = pre' ++ [Entry.call i ev seen ver] ∧
+      (fit c (A.req mid) stop₀).1 = ab.log ++ post ∧
+      A.raises i ev = some ab.err ∧
+      (∀ p ∈ calls pre', A.raises p.1 p.2 = none) ∧
+      events ab.log <+: events (fit c (A.req mid) stop₀).1 ∧
+      calls ab.log <+: (events (fit c (A.req mid) stop₀).1).flatMap (fun ev => c.cbs.map (fun i => (i, ev))) ∧
+      skeleton ab.log <+: (events (fit c (A.req mid) stop₀).1).flatMap (expandEv c) ∧
+      ab.stop = (stop₀ || ab.log.any (A.req mid).at) ∧
+      ab.ver = ab.log.countP Entry.isOpt ∧
+      stop₀ = false ∧
+      (events ab.log).getLast? = some ev :=
+  exception_trace_model c A mid stop₀ ab h
+
+/-- the scope condition of `C12_exception_trace_partial` holds on a non-trivial aborted run: callback 0 requests a stop
+(`True`) at the end of batch 0 of epoch 1, callback 1 — dispatched after it, entered with the flag set — assigns `np.True_`
+outside a `try` (refused: `ValueError` leaves `fit`); callback 1 also assigned `False` at the start of epoch 1 (flag clear then) -/
+example :
+    (let c : Cfg := { start := 1, epochs := 2, numBatches := 2, cbs := [0, 1], timer := false, hasSched := false }
+     let A : Asg := fun i ev =>
+       if i == 1 && ev == Event.epochStart 1 then some (.pyBool false, false)
+       else if i == 0 && ev == Event.batchEnd 1 0 then some (.pyBool true, false)
+       else if i == 1 && ev == Event.batchEnd 1 0 then some (.npBool true, false) else none
+     (match fitAsg c A (fun _ _ => false) false with
+      | .error ab => some (noClear A ab.log, ab.err, ab.stop, (events ab.log).getLast?) | .ok _ => none)
+       = some (true, .ValueError, true, some (.batchEnd 1 0))) := by decide
+
 /-- list fact: an element that occurs once in `A ++ B`, as its last element, does not occur in `A` unless `A` ends with it -/
 theorem not_mem_of_last_once {α : Type} [DecidableEq α] {A B : List α} {x y : α} (hc : (A ++ B).count x = 1)
     (hl : (A ++ B).getLast? = some x) (hA : A.getLast? = some y) (hxy : y ≠ x) : x ∉ A := by
@@ -1101,7 +1181,7 @@ event: the current epoch's end event is not delivered either unless it is the in
 theorem C12_exception_no_train_end (c : Cfg) (A : Asg) (mid : Int → Nat → Bool) (stop₀ : Bool) (ab : Abort)
     (h : fitAsg c A mid stop₀ = .error ab) (hte : ∀ i, A.raises i .trainEnd = none) :
     Event.trainEnd ∉ events ab.log := by
-  obtain ⟨pre', i, ev, seen, ver, post, e1, e2, e3, _, _, _, _, _, _, hs, hlast⟩ := C12_exception_trace c A mid stop₀ ab h
+  obtain ⟨pre', i, ev, seen, ver, post, e1, e2, e3, _, _, _, _, _, _, hs, hlast⟩ := exception_trace_model c A mid stop₀ ab h
   subst hs
   have hev : ev ≠ .trainEnd := by
     intro he; rw [he, hte i] at e3; cases e3
